@@ -49,6 +49,10 @@ func TestColdStart(t *testing.T) {
 			judge(Case{Kind: "text", Text: vkit.B(tx)}, w)
 		}
 	}
+	// the texts the first call may have read
+	for _, tx := range []string{"5KiB", "18 EB", "0 YiB", "5 KiB", "18EB"} {
+		judge(Case{Kind: "text", Text: vkit.B(tx)}, w)
+	}
 	for _, typ := range typeNames {
 		for _, bits := range []uint64{0, 1, 1<<24 + 1, 1<<53 + 1, 1 << 63} {
 			judge(Case{Kind: "bytes", Type: typ, Bits: bits}, w)
